@@ -2,7 +2,7 @@
    Model: Model/Obj.v (validate, rows_at, eval_h = teval, obj_eval), Model/Tensor.v. *)
 From Coq Require Import List Arith Reals Lra Lia Bool ZArith QArith Qreals.
 From SplipyModel Require Import Spec.BSpline Spec.Deriv Model.Num Model.BasisDef Model.BasisEval Model.Tensor Model.Obj
-  Proofs.Bridge Proofs.EvalConsequences Proofs.TensorLemmas Proofs.SnapSpec Proofs.ObjEval Proofs.Greville
+  Proofs.Bridge Proofs.EvalConsequences Proofs.TensorLemmas Proofs.TensorApply Proofs.SnapSpec Proofs.ObjEval Proofs.Greville Proofs.OrderRaise Proofs.EvalEndToEnd
   Transfer.ParamBase Transfer.ParamObj Extract.Exec.
 Import ListNotations.
 Open Scope R_scope.
@@ -13,6 +13,21 @@ Theorem C02_curve_is_defining_sum dim (N : list R) (cps : list (list R)) c :
   coord c (teval dim [N] cps) = lc c N cps.
 Proof. exact (teval_curve dim N cps c). Qed.
 Print Assumptions C02_curve_is_defining_sum.
+
+(* 1b. END TO END on the model's own [obj_eval], any parametric dimension: for a well-formed object with non-periodic
+       directions and a parameter tuple of its domain, the result is the tensor-product defining sum
+         sum_{i1} ... sum_{in}  N_i1(t1) ... N_in(tn)  P_{i1...in}        ([tsum], row-major control net)
+       of Cox-de Boor values at the normalised parameter/side of each direction, divided by the same sum of the weights
+       when the object is rational *)
+Theorem C02_evaluate_is_tensor_product_sum tol (o : obj R) (ts : list R) :
+  0 < tol -> wf_obj_R tol o ->
+  (forall i, (i < length (o_bases o))%nat -> b_per1 (nth i (o_bases o) dflt_basis) = 0%nat) ->
+  (forall i, (i < length (o_bases o))%nat -> in_dom tol (nth i (o_bases o) dflt_basis) (nth i ts 0)) ->
+  let rows := ref_rows tol o ts in
+  let r := map (fun c => tsum rows (cnet (@o_ncomp R o) c (o_cps o))) (seq 0 (@o_ncomp R o)) in
+  @obj_eval R NumR tol o ts = Ok (if o_rat o then @project_rat R NumR (o_dim o) r else r).
+Proof. intros Htol Hwf Hnp Hdom. exact (obj_eval_is_tensor_sum tol Htol o Hwf Hnp ts Hdom). Qed.
+Print Assumptions C02_evaluate_is_tensor_product_sum.
 
 (* 2. each row used by evaluate() is a vector of convex weights (non-negative, sum one, one
       entry per basis function) at every validated parameter, periodic or not *)
